@@ -129,9 +129,29 @@ def gen(rng):
     return {'wires': [[int(w[0])] + [float(x) for x in w[1]] + [float(x) for x in w[2]] + [w[3]] for w in wires], 'ground': ground}
 
 
+def check_arcs(spec):
+    """arcs over ground: an arc end at 180 degrees has z = r sin(pi) = 1.2e-16 r, which is "on the ground plane" by the
+    statement's tolerance; expected count = segments - 1 + grounded ends + (ends joined to the wire) """
+    viol = []
+    objs = [Arc(*a) for a in spec['arcs']] + [Wire(*w) for w in spec.get('wires', [])]
+    m = Mininec(7.0, objs, media=[ideal_ground])
+    if len(m.pulses) != spec['expected']:
+        viol.append({'id': 'pulse-count:arc-end-on-the-ground-plane', 'expected': spec['expected'], 'observed': len(m.pulses), 'input': spec})
+    return viol
+
+
+ARC_CASES = [{'arcs': [[8, 1.0, 0, 180, 0.001]], 'expected': 9}, {'arcs': [[8, 1.0, 180, 0, 0.001]], 'expected': 9},
+             {'arcs': [[6, 1.0, 0, 90, 0.001]], 'expected': 6}, {'arcs': [[6, 2.0, 90, 180, 0.001]], 'expected': 6},
+             {'arcs': [[5, 1.0, 0, 90, 0.001], [5, 1.0, 180, 90, 0.001]], 'expected': 4 + 4 + 2 + 1},
+             {'arcs': [[5, 1.0, 0, 90, 0.001], [5, 1.0, 180, 90, 0.001]], 'wires': [[3, 0, 0, 1.0, 0, 0, 2.0, 0.001]], 'expected': 4 + 4 + 2 + 2 + 2}]
+
+
 def main():
     if sys.argv[1] == 'replay':
         spec = json.loads(sys.argv[2])
+        if 'arcs' in spec:
+            print(json.dumps({'cases': 1, 'violations': check_arcs(spec)}, default=str))
+            return
         v = check(spec)
         v = v[0]
         print(json.dumps({'cases': 1, 'violations': v}, default=str))
@@ -157,6 +177,9 @@ def main():
         for x in v:
             if len(out['violations']) < 30:
                 out['violations'].append(x)
+    for spec in ARC_CASES:
+        out['cases'] += 1
+        out['violations'] += check_arcs(spec)
     print(json.dumps(out, default=str))
 
 
